@@ -21,11 +21,12 @@ type c01Cfg struct {
 	callers int // caller threads per client
 	calls   int // sequential calls per caller
 	mixed   bool
+	noise   bool // while the calls are in flight the server also sends a notification to the caller's session (same stream as the answers on legacy SSE)
 }
 
 func init() {
 	for _, mode := range []string{"sj", "ss", "sl", "sd", "ls", "io"} {
-		for _, cfg := range []c01Cfg{{mode, 1, 2, 1, false}, {mode, 1, 3, 1, false}, {mode, 1, 2, 2, false}, {mode, 2, 1, 1, false}, {mode, 1, 3, 1, true}} {
+		for _, cfg := range []c01Cfg{{mode, 1, 2, 1, false, false}, {mode, 1, 3, 1, false, false}, {mode, 1, 2, 2, false, false}, {mode, 2, 1, 1, false, false}, {mode, 1, 3, 1, true, false}, {mode, 1, 2, 1, false, true}} {
 			cfg := cfg
 			if cfg.clients == 2 && mode == "io" {
 				continue // a stdio server has exactly one peer
@@ -33,6 +34,12 @@ func init() {
 			name := fmt.Sprintf("c01/%s/%dc-%dx%d", mode, cfg.clients, cfg.callers, cfg.calls)
 			if cfg.mixed {
 				name = fmt.Sprintf("c01/%s/mixed", mode)
+			}
+			if cfg.noise {
+				if mode != "ls" && mode != "ss" {
+					continue
+				}
+				name = fmt.Sprintf("c01/%s/noise", mode)
 			}
 			RegisterScenario(&Scenario{Name: name, Run: func(p []int, m []vsched.ChoicePoint) explore.Outcome { return c01Run(p, cfg) },
 				Doc: fmt.Sprintf("%d client(s) x %d concurrent caller threads x %d calls on mode %s; echo tool with per-call nonce", cfg.clients, cfg.callers, cfg.calls, mode)})
@@ -53,6 +60,9 @@ func init() {
 			c.DFS(fmt.Sprintf("c01/%s/mixed", mode), explore.Bounds{Preempt: c.Pick(1, 3), Dev: 1, POR: true})
 			if mode != "io" {
 				c.DFS(fmt.Sprintf("c01/%s/2c-1x1", mode), explore.Bounds{Preempt: c.Pick(1, 3), Dev: 1, POR: true})
+			}
+			if mode == "ls" || mode == "ss" {
+				c.DFS(fmt.Sprintf("c01/%s/noise", mode), explore.Bounds{Preempt: c.Pick(2, 3), Dev: 1, POR: true, MaxExec: c.Pick(6000, 200000)})
 			}
 			if !c.Quick() {
 				c.DFS(fmt.Sprintf("c01/%s/1c-3x1", mode), explore.Bounds{Preempt: 3, Dev: 1, POR: true})
@@ -142,6 +152,9 @@ func truncate(s string, n int) string {
 }
 
 func c01Run(prefix []int, cfg c01Cfg) explore.Outcome {
+	if cfg.noise {
+		defer nonAtomicWriters()() // answers and notifications share one ResponseWriter: concurrent use is reported
+	}
 	var viol []explore.Violation
 	obs := &hx.Log{}
 	calls := &hx.Log{}
@@ -178,6 +191,19 @@ func c01Run(prefix []int, cfg c01Cfg) explore.Outcome {
 			done  bool
 		}
 		var results []*result
+		if cfg.noise {
+			vsched.Go("noise", func() {
+				params := map[string]interface{}{"level": "info", "data": "noise"}
+				switch {
+				case r.SSE != nil:
+					r.SSE.SendNotification("sse-0001", "notifications/message", params)
+				case r.Server != nil:
+					if sc, ok := clients[0].(mcp.SessionClient); ok && sc.GetSessionID() != "" {
+						r.Server.SendNotification(sc.GetSessionID(), "notifications/message", params)
+					}
+				}
+			})
+		}
 		for ci, cl := range clients {
 			for t := 0; t < cfg.callers; t++ {
 				ci, cl, t := ci, cl, t
@@ -330,7 +356,7 @@ func c01IDEval(tier string, i int) CaseResult {
 			fmt.Sscanf(cs.id, "seed:%d", &n)
 			cl, err := r.NewClient()
 			if err != nil {
-				viol = append(viol, V("harness", "%v", err))
+				viol = append(viol, V("setup-handshake-fails", "setting the scenario up with well-behaved peers fails: %v", err))
 				return
 			}
 			mcp.VerifSeedRequestID(cl, n)
@@ -410,7 +436,7 @@ func c01Backpressure(tier string, i int) CaseResult {
 		r.EchoTool(calls)
 		rp := NewRawPeer(r)
 		if err := rp.Handshake(); err != nil {
-			viol = append(viol, V("harness", "%v", err))
+			viol = append(viol, V("setup-handshake-fails", "setting the scenario up with well-behaved peers fails: %v", err))
 			return
 		}
 		// the client stops reading: the connection's buffers fill up and the server's stream writer
